@@ -160,7 +160,11 @@ def run(ctx):
         cell = cells[i % len(cells)]
         base = gen.synth_case(rng, cell, costs=False, incentives=False, prices=False, addons=False, overpressure=False, sdac=False)
         gen.cset(base, 'Ramey Production Wellbore Model', rng.choice([1, 1, 0]))
-        vals = sorted(gen._round(rng.uniform(15, 140), 4) for _ in range(4))
+        if i % 2 == 0:
+            vals = sorted(gen._round(rng.uniform(15, 140), 4) for _ in range(4))
+        else:
+            # the whole documented range [1, 500] kg/s, log-uniform (a trickle is an accepted input), now and then a bound itself
+            vals = sorted({gen._round(gen._logu(rng, 1.0, 500.0), 4) for _ in range(5)} | ({1.0} if i % 8 == 1 else set()) | ({500.0} if i % 8 == 5 else set()))
         jobs.append({'fn': 'gxv.jobs:multi_run', 'args': {'texts': chain_texts(base, 'Production Flow Rate per Well', vals)},
                      'timeout': 300, 'meta': {'clause': 'flow-rate', 'name': 'Production Flow Rate per Well', 'values': vals,
                                               'cell': list(cell)}})
